@@ -329,3 +329,91 @@ def iter_env(fn):
 
 def ret_value(fn, oracle):
     return table.eval_return_expr(fn, oracle)
+
+
+class ListSim:
+    """A pending list of k abstract elements for rules that must follow a teardown / worklist loop whose list shrinks
+    while it runs (the one-iteration abstraction of LoopModel assumes a list that stays as it is).  Elements are
+    0..k-1; an element leaves the list when the code unlinks / retires it.  Iterator values are ('it', index) and
+    ('it', 'end').  Advancing an iterator whose element has already left the list is reported as Unknown - the
+    node's links are no longer those of the list."""
+
+    def __init__(self, k):
+        self.k = k
+        self.alive = list(range(k))
+        self.log = []
+
+    def _first(self):
+        return ("it", self.alive[0]) if self.alive else ("it", "end")
+
+    def calls(self, extra=None):
+        def begin(t, it):
+            return self._first()
+
+        def end(t, it):
+            return ("it", "end")
+
+        def empty(t, it):
+            return not self.alive
+
+        def deref(t, it):
+            v = it.ev(_args(t)[0])
+            if not (isinstance(v, tuple) and v[0] == "it") or v[1] == "end":
+                raise Unknown("dereference of %r" % (v,))
+            return ("elem", v[1])
+
+        def arrow(t, it):
+            return ("ptr", deref(t, it))
+
+        def inc(t, it):
+            a = _args(t)[0]
+            v = it.ev(a)
+            if not (isinstance(v, tuple) and v[0] == "it") or v[1] == "end":
+                raise Unknown("increment of %r" % (v,))
+            if v[1] not in self.alive:
+                raise Unknown("an iterator is advanced after its element was unlinked")
+            later = [x for x in self.alive if x > v[1]]
+            nv = ("it", later[0]) if later else ("it", "end")
+            post = len(_args(t)) > 1          # it++ : the old position is the value of the expression
+            it.store(it.lval(a), nv)
+            return v if post else nv
+
+        def cmp(neg):
+            def h(t, it):
+                a, b = [it.ev(x) for x in _args(t)[:2]]
+                if not all(isinstance(x, tuple) and x[0] == "it" for x in (a, b)):
+                    raise Unknown("comparison of %r and %r" % (a, b))
+                return (a != b) if neg else (a == b)
+            return h
+
+        def assign(t, it):
+            a = _args(t)
+            v = it.ev(a[1])
+            it.store(it.lval(a[0]), v)
+            return v
+
+        def elem_of(t, it):
+            v = it.ev(_args(t)[0])
+            while isinstance(v, tuple) and v and v[0] == "ptr":
+                v = v[1]
+            if not (isinstance(v, tuple) and v[0] == "elem"):
+                raise Unknown("receiver %r is not a list element" % (v,))
+            return v[1]
+
+        def unlink(t, it):
+            i = elem_of(t, it)
+            self.log.append(("unlink", i))
+            if i in self.alive:
+                self.alive.remove(i)
+            return None
+        d = {
+            "trompeloeil::list::begin": begin, "trompeloeil::list::end": end, "trompeloeil::list::empty": empty,
+            "trompeloeil::list::iterator::operator*": deref, "trompeloeil::list::iterator::operator->": arrow,
+            "trompeloeil::list::iterator::operator++": inc, "trompeloeil::operator!=": cmp(True),
+            "trompeloeil::operator==": cmp(False), "trompeloeil::list::iterator::operator=": assign,
+            "trompeloeil::list_elem::unlink": unlink, "trompeloeil::sequence_matcher::retire": unlink,
+        }
+        self.elem_of = elem_of
+        if extra:
+            d.update(extra)
+        return d
